@@ -270,3 +270,137 @@ def scotland_prior_stage_case(d):
         ballots = d.perm(ballots)
     return dict(ncand=6, nseats=1, withdrawn=[], undeclared=[], tie=d.perm(range(1, 7)), ballots=ballots, title='T',
                 names=None, rule='scotland', options={})
+
+
+# ---------------------------------------------------------------------------- randomised BLT renderer
+
+class Choices:
+    "a replayable stream of small integers (stored in the case, so that layouts shrink and replay)"
+
+    def __init__(self, seq):
+        self.seq = list(seq) or [0]
+        self.i = 0
+
+    def next(self, n):
+        v = self.seq[self.i % len(self.seq)]
+        self.i += 1
+        return v % n
+
+
+SEPS = [' ', ' ', '\n', '\t', '  ', '\r\n', ' \n ', ' # note\n', ' /* c */ ', '\n/* a /* nested */ b */\n',
+        ' #\n', ' /* 1 2 0 */ ', ' # "q" [x] (y) -1\n', ' /*x*/ ', '\n\n']
+QSEPS = [' ', ' ', '\t', '\n', '  ', '\r\n']      # inside a quoted string only white space may vary
+
+
+def quoted_tokens(s):
+    "a quoted string as the list of white-space separated tokens the tokenizer will see"
+    return ('"%s"' % s).split(' ')
+
+
+def render_layout(case, choices):
+    """BLT text of a case under a layout drawn from `choices` (a list of ints).
+    Honours case['nicks'] (nicknames may replace numbers anywhere a candidate is referenced),
+    case['ids'] (ballot ids instead of multipliers; requires all multipliers == 1),
+    case['source'], case['comment'], case['file_options']."""
+    ch = Choices(choices)
+    nc = case['ncand']
+    nicks = case.get('nicks')
+    out = []        # (token, inside_quote_continuation)
+
+    def cand(c):
+        if nicks and ch.next(3) != 0:
+            return nicks[c - 1]
+        return str(c)
+
+    def tok(t):
+        out.append((t, False))
+
+    def option(name, items):
+        if ch.next(2):
+            tok('[' + name)
+            for it in items[:-1]:
+                tok(it)
+            tok(items[-1] + ']')
+        else:
+            tok('[' + name)
+            for it in items:
+                tok(it)
+            tok(']')
+
+    tok(str(nc))
+    tok(str(case['nseats']))
+    wd = list(case.get('withdrawn') or [])
+    minus = [c for c in wd if ch.next(2)]
+    wopt = [c for c in wd if c not in minus]
+    opts = []
+    if case.get('tie'):
+        opts.append(('tie', lambda: [cand(c) for c in case['tie']]))
+    if case.get('undeclared'):
+        opts.append(('undeclared', lambda: [cand(c) for c in case['undeclared']]))
+    if wopt:
+        opts.append(('withdrawn', lambda: [cand(c) for c in wopt]))
+    if case.get('file_options'):
+        opts.append(('droop', lambda: list(case['file_options'])))
+    # [nick ...] must come before any use of a nickname
+    if nicks:
+        option('nick', list(nicks))
+    k = ch.next(max(1, len(opts)))
+    opts = opts[k:] + opts[:k]
+    for name, items in opts:
+        option(name, items())
+    for c in minus:
+        tok('-%d' % c)
+    ids = case.get('ids')
+    for i, (m, ranking) in enumerate(case['ballots']):
+        if ids:
+            for j, t in enumerate(('(%s)' % ids[i]).split(' ')):
+                out.append((t, j > 0))
+        else:
+            tok(str(m))
+        for rank in ranking:
+            tok('='.join(cand(c) for c in rank))
+        tok('0')
+    tok('0')
+    strings = list(case.get('names') or ['N%d' % i for i in range(1, nc + 1)]) + [case.get('title', 'T')]
+    if case.get('source') is not None:
+        strings.append(case['source'])
+        if case.get('comment') is not None:
+            strings.append(case['comment'])
+    for s in strings:
+        for j, t in enumerate(quoted_tokens(s)):
+            out.append((t, j > 0))
+    text = []
+    for i, (t, cont) in enumerate(out):
+        if i:
+            text.append(QSEPS[ch.next(len(QSEPS))] if cont else SEPS[ch.next(len(SEPS))])
+        text.append(t)
+    text.append(['', '\n', ' ', '\n# end\n', ' /* tail */'][ch.next(5)])
+    return ''.join(text)
+
+
+def split_merge(d, ballots):
+    "another presentation of the same multiset of ballots: lines permuted, multipliers split and merged"
+    out = []
+    for m, r in ballots:
+        parts = []
+        left = m
+        while left > 1 and d.p(45):
+            k = d.int(1, left - 1) if left < 50 else d.choice([1, left // 2, left - 1])
+            parts.append(k)
+            left -= k
+        parts.append(left)
+        for k in parts:
+            out.append([k, [list(x) for x in r]])
+    out = d.perm(out)
+    if d.p(50):
+        merged = []
+        seen = {}
+        for m, r in out:
+            key = repr(r)
+            if key in seen and d.p(70):
+                merged[seen[key]][0] += m
+            else:
+                seen[key] = len(merged)
+                merged.append([m, r])
+        out = merged
+    return out
